@@ -450,6 +450,7 @@ class Scenario:
     def __init__(self, share_dir, tmpdir):
         self.share_dir = share_dir
         self.tmpdir = tmpdir
+        self.other_exceptions = 0     # loop-level exceptions of tasks that are not C05's business
 
     def run(self, init, ops, conc):
         events = []
@@ -462,7 +463,14 @@ class Scenario:
         except vloop.Deadlock as exc:
             raise MachineryFailure(f'virtual loop deadlock in scenario {ops}: {exc}')
         events = holder['events']
-        bad = [c for c in loop.unhandled if 'exception' in c and not isinstance(c.get('exception'), asyncio.CancelledError)]
+        def relevant(c):
+            # only what the upload scheduling itself raised is C05's observation
+            t = c.get('task') or c.get('future')
+            name = t.get_name() if hasattr(t, 'get_name') else ''
+            return name.startswith(('initialize-upload', 'transfer-management-task'))
+        unh = [c for c in loop.unhandled if 'exception' in c and not isinstance(c.get('exception'), asyncio.CancelledError)]
+        bad = [c for c in unh if relevant(c)]
+        self.other_exceptions += len(unh) - len(bad)
         if bad:
             last = events[-1]
             events.append(dict(ev='exc', t=last['t'], slots=last['slots'], users=last['users'],
@@ -618,6 +626,27 @@ def directed_scenarios(rng, thorough):
             ops = (('req', 1), ('req', 3), ('req', 2)) + STEP + ((k, 1),) + STEP + ((k, 3),) + STEP + \
                   (('resume', 1),) + STEP + (('resume', 3),) + STEP + (('fail', 2),) + STEP
             out.append(((s, _plain(2)), ops, 'd5-abort-pause'))
+    # D6 whole life cycles under a tight limit: pause / fail / abort while uploading, back to the queue,
+    # completed and failed uploads asked for again
+    for s in (1, 2):
+        for n in (2, 3):
+            for variant in range(3 if thorough else 2):
+                ups = [1, 2] + [2 * o - 1 for o in range(2, n + 1)]
+                rng.shuffle(ups)
+                ops = tuple(('req', u) for u in ups) + STEP
+                blocks = [
+                    lambda u: (('neg', u), ('run',), ('pause', u)) + STEP + (('resume', u),) + STEP,
+                    lambda u: (('neg', u), ('run',), ('fail', u)) + STEP + (('req', u),) + STEP,
+                    lambda u: (('back', u),) + STEP,
+                    lambda u: (('neg', u), ('run',), ('abort', u)) + STEP + (('resume', u),) + STEP,
+                    lambda u: (('neg', u), ('run',), ('complete', u)) + STEP + (('req', u),) + STEP,
+                    lambda u: (('fail', u),) + STEP + (('req', u),) + STEP,
+                ]
+                rng.shuffle(blocks)
+                for b in blocks:
+                    for u in ups:
+                        ops += b(u)
+                out.append(((s, _plain(n)), ops, 'd6-life-cycles'))
     return out
 
 
@@ -714,6 +743,14 @@ def _simulate(cfg, num, depth, seed, timeout=900):
         shutil.rmtree(d, ignore_errors=True)
 
 
+_DEEP = ('ENegotiated', 'EComplete', 'EFail', 'EBackToQueue', 'ERequeue', 'ESetSlots', 'EStatus')
+
+
+def _score(labels):
+    kinds = [l.split('(')[0] for l in labels]
+    return 3 * len(set(kinds)) + sum(2 for k in kinds if k in _DEEP) + sum(1 for k in kinds if k == 'FirstStep')
+
+
 def collect(chk: Check, thorough: bool):
     """(init, ops) -> source label."""
     scen = {}
@@ -722,9 +759,12 @@ def collect(chk: Check, thorough: bool):
     if thorough:
         plan += [('MC_quick.cfg', 500, 32), ('MC_big.cfg', 500, 36)]
     for i, (cfg, num, depth) in enumerate(plan):
-        behs, res = _simulate(cfg, num, depth, chk.seed + 11 + i)
+        # the simulator walks uniformly; most steps are abort/pause/resume of queued uploads and attribute
+        # flips.  Generate three times as many behaviours and keep those that get furthest into the life cycle.
+        behs, res = _simulate(cfg, num * 3, depth, chk.seed + 11 + i)
         if not behs:
             raise MachineryFailure(f'simulation of {cfg} produced no behaviour: {res.raw[-800:]}')
+        behs = [b for _, _, b in sorted(((-_score(b[1]), j, b) for j, b in enumerate(behs)), key=lambda x: x[:2])[:num]]
         new = 0
         for first, labels in behs:
             init = init_of(first)
@@ -754,6 +794,18 @@ def _make_share():
 
 def _nontrivial(trace):
     return any(e['ev'] == 'st' and e['new'] == 'INITIALIZING' for e in trace)
+
+
+def _edge_counts(traces):
+    c = {}
+    for t in traces:
+        for e in t:
+            if e['ev'] == 'st':
+                k = f"{e['old']}->{e['new']}"
+                c[k] = c.get(k, 0) + 1
+            elif e['ev'] in ('req', 'attr'):
+                c[e['ev']] = c.get(e['ev'], 0) + 1
+    return c
 
 
 def _key(trace):
@@ -802,8 +854,6 @@ def _corruptions(traces, limit=6):
             for k2 in ('u', 'old', 'new'):
                 bad[-1].pop(k2, None)
             out.append(('never-started', bad))
-        if len(out) >= limit * 5:
-            break
     # keep a few of every kind
     res, per = [], {}
     for k, t in out:
@@ -821,8 +871,6 @@ def run(chk: Check, args):
                        '(user names, message variants AddUser/GetUserStatus/AddPrivilegedUser/PrivilegedUsers, idle periods) '
                        'on a real SoulSeekClient in virtual time; distinct = distinct recorded traces; non-trivial = at '
                        'least one upload was started (entered INITIALIZING)')
-    if getattr(args, 'replay', None):
-        return _replay(chk, args.replay)
     _models(chk, thorough)
     scen = collect(chk, thorough)
     keys = sorted(scen, key=repr)
@@ -847,6 +895,8 @@ def run(chk: Check, args):
         chk.sample(dict(meta=metas[i], trace=[{k: v for k, v in e.items() if k != 'users'} for e in traces[i]][:60]))
     started = sum(1 for t in traces for e in t if e['ev'] == 'st' and e['new'] == 'INITIALIZING')
     chk.cov['starts_observed'] = started
+    chk.cov['transitions_observed'] = dict(sorted(_edge_counts(traces).items()))
+    chk.cov['unrelated_loop_exceptions_ignored'] = sc.other_exceptions
     chk.cov['records'] = sum(len(t) for t in traces)
 
     v = tlc.validate_traces(TRACE, 'Trace.cfg', traces, diag_cfg='TraceDiag.cfg', timeout=1500)
@@ -880,9 +930,8 @@ def run(chk: Check, args):
     ]
 
 
-def _replay(chk: Check, path):
-    with open(path) as fh:
-        data = json.load(fh)
+def replay(chk: Check, data: dict):
+    """Re-execute the scenario of a replay file on the current tree and validate the new trace."""
     meta = (data.get('replay') or {}).get('meta')
     if not meta:
         raise MachineryFailure('replay file has no scenario')
@@ -894,7 +943,8 @@ def _replay(chk: Check, path):
     finally:
         shutil.rmtree(tmp, ignore_errors=True)
     chk.count(_key(ev), nontrivial=_nontrivial(ev))
+    print('scenario:', init, ops)
     for e in ev:
-        chk.log({k: v for k, v in e.items() if k != 'users'})
+        print('  ', {k: v for k, v in e.items() if k != 'users'}, e['users'] if e['ev'] in ('init', 'attr') else '')
     v = tlc.validate_traces(TRACE, 'Trace.cfg', [ev], diag_cfg='TraceDiag.cfg', timeout=600)
     chk.apply_verdicts(v, [ev], _fingerprint, meta_of=lambda tid: meta)
